@@ -1,11 +1,17 @@
 import A5.Model.GenericGeo
+import A5.Lemmas.PentagonArea
 /-! # C04 — all cells of a resolution have equal area: sphere area / number of cells
 
 Model: `A5.getNumCells` (`A5/Model/Hier.lean`), `A5.cellArea` (`A5/Model/CellGeo.lean`), the generated
 `Gen.AUTHALIC_AREA`, `Gen.CELL_AREA_TABLE`, `Gen.NUM_CELLS_SPECIAL` (`A5/Gen/Tables.lean`, regenerated from
 `src/core/cell_info.rs` on every run).  A generated float constant `c` is read as the exact rational
 `c.toRat = num * 2^exp` (`A5/Model/GenericGeo.lean`).  Everything here is a finite fact checked by the
-kernel (`decide +kernel`, no axioms beyond the standard three); the file is core-only.
+kernel (`decide +kernel`, no axioms beyond the standard three).
+
+The planar half of the polygon clause (T4, `A5/Lemmas/PentagonArea.lean`): in exact arithmetic on the runtime constants
+every cell pentagon of a quintant has the same planar area as the seed pentagon (for every anchor, hence every depth
+and position), scaling by `2^-res` divides it by `4^res`, and the seed's area is the area of one lattice triangle to
+2^-50.  What is left for the sphere is the equal-area property of the projection itself (C16).
 
 Findings recorded below:
 * `get_num_cells` returns JavaScript-rounded literals at resolutions 28, 29, 30 which differ from the exact
@@ -166,5 +172,37 @@ example : Gen.CELL_AREA_TABLE.length = 31 := by decide +kernel
 example : (0 : Rat) < (2 : Rat) ^ (-52 : Int) * (Gen.AUTHALIC_AREA.toRat / (exactNumCells 1 : Rat)) ∧
     (2 : Rat) ^ (-52 : Int) * (Gen.AUTHALIC_AREA.toRat / (exactNumCells 1 : Rat)) < 1 / 500 := by decide +kernel
 example : (cellArea (-1)).toBits = 0x42fcfe6e8608aaf2 := cell_area_negative_bits _ (by decide)
+
+/-! ## T4: the planar half of the polygon clause -/
+
+/-- T4a. `planar_area_equal`: in exact arithmetic on the constants the library computes at start-up, the pentagon
+`get_pentagon_vertices` draws for ANY anchor (lattice frame of the quintant) has the same signed area as the seed
+pentagon — the placement is a composition of a half-turn, a mirror image with reversed vertex order and translations. -/
+theorem planar_area_equal (a : Anchor) (hF : HilbertLocate.IsFlip a.flips) :
+    PG.areaG 0 (PG.pentagonQ a) = PG.areaG 0 PG.seedQ :=
+  PG.pentagonQ_area a hF
+
+/-- T4a for the anchors of the curve: all `4^n` cells of a quintant at depth `n` have equal planar area. -/
+theorem planar_area_equal_positions (n o s t : Nat) (hn : n ≤ 30) (ho : o < 6) (hs : s < 4 ^ n) (ht : t < 4 ^ n) :
+    ∃ a b, sToAnchor s n o = .ok a ∧ sToAnchor t n o = .ok b ∧
+      PG.areaG 0 (PG.pentagonQ a) = PG.areaG 0 (PG.pentagonQ b) := by
+  obtain ⟨a, ha, hFa, _⟩ := A5.locate_anchor ℚ n o s hn ho hs
+  obtain ⟨b, hb, hFb, _⟩ := A5.locate_anchor ℚ n o t hn ho ht
+  exact ⟨a, b, ha, hb, (PG.pentagonQ_area a hFa).trans (PG.pentagonQ_area b hFb).symm⟩
+
+/-- T4b. scaling a pentagon by `s` (the `2^-res` of `get_pentagon_vertices`) multiplies its area by `s²`, over any field. -/
+theorem planar_area_scale {K : Type} [Field K] (p0 p1 p2 p3 p4 : K × K) (s : K) :
+    PG.areaG 0 (PG.scaleG' [p0, p1, p2, p3, p4] s) = s * s * PG.areaG 0 [p0, p1, p2, p3, p4] :=
+  PG.area_scale p0 p1 p2 p3 p4 s
+
+/-- T4c. the seed pentagon has positive area, and its area is the area of one lattice triangle (half `det BASIS`) to
+2^-50: the `4^n` pentagons of depth `n` together have the area of the quintant triangle `2^n · (0, v, w)`. -/
+theorem pentagon_area_is_triangle_area :
+    0 < PG.areaG 0 PG.seedQ ∧ -(1 / 2 ^ 50 : Rat) < PG.areaG 0 PG.seedQ + PG.basisDet ∧
+      PG.areaG 0 PG.seedQ + PG.basisDet < 1 / 2 ^ 50 :=
+  PG.seed_area_facts
+
+/-- T4a is not vacuous: the anchor of position 6, depth 2, orientation 3 has a `±1` flip pair -/
+example : HilbertLocate.IsFlip (⟨1, (3, 0), (1, -1)⟩ : Anchor).flips := Or.inr (Or.inl rfl)
 
 end A5.C04
